@@ -15,7 +15,7 @@ run_prop() {
     echo "$s $alt $out"
   done
 }
-for grp in "C02 C03 C04 C17" "C08 C09 C10 C18" "C05 C15 C06 C19" "C16 C13"; do
+for grp in "C02 C03 C04 C17" "C08 C09 C10 C18" "C05 C15 C06 C19" "C16 C13 C14"; do
   for p in $grp; do run_prop $p > /tmp/sweep_$$_$p.log 2>&1 & done
   wait
 done
